@@ -22,6 +22,9 @@ def P():
     """lazy import of pyp0f (from the working tree) into one namespace"""
     if _loaded:
         return _loaded
+    # the way applications usually get Scapy: every layer loaded, so TCP payloads on well-known ports are dissected
+    # as their application protocol (DNS, ...) and not as Raw
+    import scapy.all  # noqa: F401
     import pyp0f
     assert os.path.realpath(pyp0f.__file__).startswith(os.path.realpath(REPO)), pyp0f.__file__
     from pyp0f.database import Database
@@ -226,6 +229,14 @@ def answer(line, timeout=4):
         signal.setitimer(signal.ITIMER_REAL, 0)
         signal.signal(signal.SIGALRM, old)
         signal.signal(signal.SIGPROF, oldp)
+
+
+def op_seq(f):
+    """several ops one after the other in this process; what an earlier one leaves behind must not change a later answer"""
+    return " ;; ".join(answer("\t".join(part.split("\x1f"))) for part in f[1:] if part)
+
+
+OPS["seq"] = op_seq
 
 
 # more ops live in their own modules; importing them registers them
